@@ -150,6 +150,20 @@ CHECKS["C20"] = dict(
     note=TB + "IKNP and OT are parameters in the theorems (C06 supplies OtSpec and chunking); AES-CTR is an arbitrary function; "
               "negative big.Int values and values >= 2^256 are outside the domain (the latter provably panic).")
 
+CHECKS["C07"] = dict(
+    category="proof", design_ref="DESIGN.md section 2 / C07",
+    technique="Lean 4 proofs on an executable builder-monad model; structural gate-list equality (the Lean generator reproduces the Go builder's gates one for one) + differential evaluation tie; exhaustive and sampled implementation-side oracle",
+    text=("Tier-A builders (ripple adder/subtractor, unsigned/signed comparators, Eq/Neq, MUX, bitwise, logical, bit tests, "
+          "array index, Hamming) are proved exact for ALL operand and result widths with exact width guards "
+          "(toNat z = f(toNat x, toNat y) mod 2^|z|), bridged to C01's plain evaluator; negation witnesses for the array "
+          "multiplier, subtractor and signed comparator where the code is wrong. The Lean generators reproduce the real "
+          "builders' gate lists gate for gate on thousands of width triples per run (so the theorem about the generator is "
+          "a theorem about that Go output); Kogge-Stone, Karatsuba and Wallace are tied gate for gate but not yet proved "
+          "for general widths; dividers are validated only. Oracle: real builder -> Compile -> Compute vs math/big, "
+          "exhaustive up to 8 bits (thorough), boundary-biased to 130 bits, both targets."),
+    note=TB + "Partial overall: Tier B/C builders and `Compile` by validation only; known findings (several reachable from MPCL "
+              "programs) are re-derived on every run.")
+
 NOT_YET = {}
 
 PROPS = [json.loads(l)["id"] for l in open(os.path.join(VERIF, "properties.jsonl"))]
